@@ -130,7 +130,7 @@ ORDERS = ("distance", "id", "rev-id", "random")
 PPP_REPRS = ("int64", "int64", "int64", "list", "tuple", "float64", "float32", "int32", "bool")
 ID_FORMATS = ("%d", "%d", "%d", "%.1f", "%.6e")
 # sizes around the block sizes a "vectorised" loop typically uses (EXTENSION_3 class 1)
-NS_QUICK = (31, 32, 33, 63, 64, 65, 99, 100, 101, 127, 128, 129, 133)
+NS_QUICK = (31, 32, 33, 33, 63, 64, 65, 65, 99, 100, 101, 101, 127, 128, 129, 129, 129, 133)   # B + 1 weighted up
 NS_THOROUGH = (170, 199, 200, 201, 255, 256, 257, 266, 341, 399, 401, 499, 500, 501, 511, 512, 513)
 CN_BIG_QUICK = (29, 30, 31, 32, 33, 49, 50, 51, 63, 64, 65)
 CN_BIG_THOROUGH = (99, 100, 101, 127, 128, 129, 133, 199, 200, 201)
@@ -1467,6 +1467,9 @@ def check_history(case):
 def sized_st(draw, Ns, cn_big, frames=(1, 2), nmax_classes=("default", "default", "exact", "large", "trunc"), **kw):
     """Sizes around typical block sizes (particles and neighbours per particle), dispatched over the four groups of
     quantities.  w_W_cap rebuilds the sympy table on every call: low degrees there."""
+    # the size is the FIRST choice of the case (Hypothesis varies the head of an example most): flat size histogram
+    if Ns is not None:
+        Ns = (draw(pick(Ns)),)
     what = draw(pick(["qlm", "qlm", "sij", "sij", "corr", "corr", "w"]))
     ls = (2, 2, 3, 4) if what == "w" else (2, 3, 4, 5, 6, 6, 7, 8, 10, 11, 12)
     case = draw(case_st(frames=frames, ls=ls, Ns=Ns, cn_big=cn_big, nmax_classes=nmax_classes, **kw))
@@ -1521,7 +1524,7 @@ FACETS = [
           rule="all six methods twice on one object in a drawn order, interleaved with a second object of the same degree "
                "(other data, in half of the cases the same shape): each answer is the reference of its own call, and all "
                "results handed out earlier are bit-for-bit unchanged at the end; non-trivial as in RULE for either object"),
-    Facet("sizes", sized_st(NS_QUICK, CN_BIG_QUICK), check_sized, quick=56, thorough=1600, describe=describe, shards_quick=4,
+    Facet("sizes", sized_st(NS_QUICK, CN_BIG_QUICK), check_sized, quick=56, thorough=1600, describe=describe, shards_quick=8,
           rule="N in {31..33, 63..65, 99..101, 127..129, 133} and 29..33 / 49..51 / 63..65 neighbours per particle "
                "(default Nmax = 30 truncating or not), all four groups of quantities; non-trivial as in RULE"),
     Facet("sizes_large", sized_st(NS_THOROUGH, CN_BIG_QUICK + CN_BIG_THOROUGH, frames=(1, 1)), check_sized, quick=0, thorough=320,
